@@ -310,12 +310,17 @@ class Problem:
         N = self.basis.N
         h = 2e-3 / attr_max(self.basis)
         J = np.zeros((N, N))
+        fmax = 0.0
         for j in range(N):
             e = np.zeros(N)
             e[j] = h
-            J[:, j] = (-self.residual(x + 2 * e, which) + 8 * self.residual(x + e, which)
-                       - 8 * self.residual(x - e, which) + self.residual(x - 2 * e, which)) / (12 * h)
-        return J
+            f = [self.residual(x + c * e, which) for c in (2, 1, -1, -2)]
+            fmax = max(fmax, max(float(np.abs(v).max()) for v in f))
+            J[:, j] = (-f[0] + 8 * f[1] - 8 * f[2] + f[3]) / (12 * h)
+        # rounding floor of the difference quotient: eps * |F| / h.  Needed where the true Jacobian vanishes
+        # (homogeneous integrands of degree >= 2 linearised at 0): there max|J_fd| is pure rounding noise
+        # (1e-22) and must not serve as the scale.
+        return J, 1e-11 * fmax / h
 
     def names(self):
         return "+".join(t.name for t in self.terms)
@@ -395,20 +400,20 @@ def judge(ctx, prob, x, which, tag, fd=True, hand=True):
                   mech=lambda: "jax-det-3x3-doubled-minus" if defect_residual_matches() else "jac-hand:" + names,
                   terms=names, point=which, worst=lambda: worst_entry(Jd, Jh), **tag)
     if fd and N <= NMAX:
-        Jf = prob.jac_fd(x0)
+        Jf, fd_atol = prob.jac_fd(x0)
         sJ = float(np.abs(Jf).max())
 
         def fd_mech():
             if defect_residual_matches():
-                Jdf = prob.jac_fd(x0, which="res_defect")
-                if np.abs(Jd - Jdf).max() <= RT_FD * max(np.abs(Jdf).max(), 1e-300):
+                Jdf, at = prob.jac_fd(x0, which="res_defect")
+                if np.abs(Jd - Jdf).max() <= RT_FD * np.abs(Jdf).max() + at:
                     return "jax-det-3x3-doubled-minus"
             return "jac-fd:" + names
-        ctx.close("jacobian-vs-finite-differences", Jd, Jf, rtol=RT_FD, scale=sJ, mech=fd_mech,
+        ctx.close("jacobian-vs-finite-differences", Jd, Jf, rtol=RT_FD, scale=sJ, atol=fd_atol, mech=fd_mech,
                   terms=names, point=which, worst=lambda: worst_entry(Jd, Jf), **tag)
         if Jh is not None:
             # the two references must agree with each other, otherwise the harness is wrong, not the library
-            if not np.abs(Jh - Jf).max() <= RT_FD * max(sJ, 1e-300):
+            if not np.abs(Jh - Jf).max() <= RT_FD * sJ + fd_atol:
                 ctx.drop("oracles-disagree:" + names)
     return Jd
 
@@ -419,7 +424,7 @@ def worst_entry(A, B):
     return {"i": int(i), "j": int(j), "got": float(A[i, j]), "ref": float(B[i, j])}
 
 
-def pick_terms(rng, poolname, layout, dim, kmax=3, need_nonlinear=True, only_linear=False, energy=False):
+def pick_terms(rng, poolname, layout, dim, kmax=3, need_nonlinear=True, only_linear=False, energy=False, rot=None):
     pool = [t for t in TG.pool(poolname) if t.layout == layout and dim in t.dims and t.energy == energy]
     if only_linear:
         pool = [t for t in pool if t.linear]
@@ -429,7 +434,8 @@ def pick_terms(rng, poolname, layout, dim, kmax=3, need_nonlinear=True, only_lin
     k = int(rng.integers(1, kmax + 1))
     chosen = []
     if need_nonlinear and nl and not only_linear:
-        chosen.append(nl[int(rng.integers(len(nl)))])
+        # the leading nonlinear term rotates with the case index so that every term of the grammar is met
+        chosen.append(nl[(rot if rot is not None else int(rng.integers(len(nl)))) % len(nl)])
     while len(chosen) < min(k, len(pool)):
         t = pool[int(rng.integers(len(pool)))]
         if t not in chosen:
@@ -516,7 +522,7 @@ def fam_residual(layout_group, poolname):
         mc, mesh, basis = make_basis(ctx, rng, kind, rec, maxcells, order2=(k % 5 == 4), subset=(k % 7 == 3),
                                      intorder=(None if k % 3 else int(rng.integers(2, 5))))
         dim = mesh.dim()
-        terms = pick_terms(rng, poolname, layout, dim)
+        terms = pick_terms(rng, poolname, layout, dim, rot=k // len(layout_group))
         Ps = [t.coef(rng) for t in terms]
         kw = kwargs_for(rng, basis, terms)
         if kw:
@@ -535,7 +541,7 @@ def fam_energy(ctx, k):
     layout, kind, rec = choose(ctx, k, ["scalar", "vector", "scalar+scalar"], ctx.scale(12, 30))
     nb_guess = {"line": 6, "tri": 8, "quad": 6, "tet": 5, "hex": 2, "wedge": 3}[kind]
     mc, mesh, basis = make_basis(ctx, rng, kind, rec, ctx.scale(nb_guess, 3 * nb_guess), order2=(k % 6 == 5))
-    terms = pick_terms(rng, "energy", layout, mesh.dim(), kmax=2, energy=True)
+    terms = pick_terms(rng, "energy", layout, mesh.dim(), kmax=2, energy=True, rot=k // 3)
     prob = Problem(basis, terms, [t.coef(rng) for t in terms], {}, energy=True)
     ctx.reached("hessian-path")
     if prob.n > 1:
@@ -554,7 +560,7 @@ def fam_facet(ctx, k):
     mc, mesh, basis = make_basis(ctx, rng, kind, rec, ctx.scale(6, 16), facet=facet)
     if basis.nelems == 0:
         raise Skip("no-facets")
-    terms = pick_terms(rng, "facet", layout, mesh.dim(), kmax=1)
+    terms = pick_terms(rng, "facet", layout, mesh.dim(), kmax=1, rot=k // 2)
     prob = Problem(basis, terms, [t.coef(rng) for t in terms], {})
     tag = {"layout": "facet:" + layout, "elem": rec.name, "mesh": type(mesh).__name__, "desc": mc.desc,
            "basis": type(basis).__name__}
